@@ -225,11 +225,33 @@ CONTENT_PRESERVING = {
 class Deps:
     """flow-insensitive dependency labels of expressions of one function (who feeds the store name)"""
 
-    def __init__(self, prog, scope, staged=None, depth=0):
+    def __init__(self, prog, scope, staged=None, depth=0, consts=None):
         self.prog = prog
         self.sc = scope
         self.staged = staged
         self.depth = depth
+        self.consts = consts or {}  # parameter -> string constant it is bound to at the call being followed
+
+    def const_str(self, e):
+        if isinstance(e, ast.Constant) and isinstance(e.value, str):
+            return e.value
+        if isinstance(e, ast.Name):
+            if e.id in self.consts and e.id not in self.sc.assigns():
+                return self.consts[e.id]
+            a = self.sc.assigns().get(e.id, [])
+            if len(a) == 1 and a[0][1] is None and isinstance(a[0][0], ast.Constant) and isinstance(a[0][0].value, str):
+                return a[0][0].value
+        return None
+
+    def bind_consts(self, call, params):
+        out = {}
+        for i, a in enumerate(call.args):
+            if i < len(params) and not isinstance(a, ast.Starred) and self.const_str(a) is not None:
+                out[params[i]] = self.const_str(a)
+        for k in call.keywords:
+            if k.arg in params and self.const_str(k.value) is not None:
+                out[k.arg] = self.const_str(k.value)
+        return out
 
     def digest_of(self, call):
         """('digest'|'digest-other', algo, text) for a subprocess call of md5sum/sha1sum, else None"""
@@ -239,13 +261,13 @@ class Deps:
         cmd = call.args[0]
         if not isinstance(cmd, (ast.List, ast.Tuple)) or not cmd.elts:
             return None
-        head = cmd.elts[0]
-        if not (isinstance(head, ast.Constant) and isinstance(head.value, str)):
+        head = self.const_str(cmd.elts[0])
+        if head is None:
             return None
-        algo = DIGESTS.get(os.path.basename(head.value))
+        algo = DIGESTS.get(os.path.basename(head))
         if algo is None:
             return None
-        operands = [e for e in cmd.elts[1:] if not isinstance(e, ast.Constant)]
+        operands = [e for e in cmd.elts[1:] if self.const_str(e) is None]
         if len(operands) == 1 and isinstance(operands[0], ast.Name) and operands[0].id == self.staged:
             return ('digest', algo, 'staged file')
         return ('digest-other', algo, norm(cmd))
@@ -332,7 +354,7 @@ class Deps:
             for k in c.keywords:
                 if isinstance(k.value, ast.Name) and k.value.id == self.staged and self.staged is not None and k.arg in params:
                     sp = k.arg
-            sub = Deps(self.prog, Scope(self.prog, func=fn), sp, self.depth + 1)
+            sub = Deps(self.prog, Scope(self.prog, func=fn), sp, self.depth + 1, self.bind_consts(c, params))
             out = set()
             for r in fn.own_nodes():
                 if isinstance(r, ast.Return) and r.value is not None:
@@ -406,7 +428,7 @@ class _Enc(Flow):
             sp = [p for p, a in binds if isinstance(a, ast.Name) and a.id == self.staged]
             if sp:
                 vp = [p for p, a in binds if isinstance(a, ast.Name) and a.id == self.value]
-                sub = _Enc(self.prog, hf, sp[0], vp[0] if vp else None, Deps(self.prog, Scope(self.prog, func=hf), sp[0], 1), self.depth + 1)
+                sub = _Enc(self.prog, hf, sp[0], vp[0] if vp else None, Deps(self.prog, Scope(self.prog, func=hf), sp[0], 1, self.deps.bind_consts(call, params)), self.depth + 1)
                 o = sub.run(hf.node, st)
                 self.visited += sub.visited
                 self.reads += sub.reads
